@@ -330,6 +330,19 @@ def _compare(z, logical, viol, case):
         if m["data"] is not None and f.crc32 is not None and f.crc32 != zlib.crc32(m["data"]) and size > 0:
             viol("crc_differs", "files.crc32", "%r: crc32 reported %r, content %r" % (m["name"], f.crc32, zlib.crc32(m["data"])))
             return
+    # list(): the modification time as a datetime - exactly the stored instant, to the microsecond FILETIME can express
+    try:
+        import datetime as _dt
+
+        for m, fi in zip(logical, z.list()):
+            if m["mtime"] is not None and fi.creationtime is not None:
+                want_dt = _dt.datetime(1601, 1, 1, tzinfo=_dt.timezone.utc) + _dt.timedelta(microseconds=m["mtime"] // 10)
+                if fi.creationtime != want_dt:
+                    viol("timestamp_differs", "list.creationtime", "%r: stored %s, list() reports %s" % (m["name"], want_dt.isoformat(), fi.creationtime.isoformat()), defined=True)
+                    return
+    except Exception as e:
+        viol("listing_failed", "list", "list() raised %r" % e, error=type(e).__name__)
+        return
     try:
         fac = rw.make_factory()
         z.extractall(factory=fac)
